@@ -43,7 +43,9 @@ def _worker(name):
     nval = c.get('validate', 6)
     if nval:
       done, fails = harness.run_concrete(c, seed=seed * 7919 + hash(name) % 1000, n=nval)
-      out['validation'] = {'runs': done, 'failures': harness.jsonable(fails[:3])}
+      out['validation'] = {'runs': done, 'failures': harness.jsonable(fails[:3]),
+                           'checked': harness.LAST_CONCRETE['checked'],
+                           'names': sorted(harness.LAST_CONCRETE['names'])[:40]}
     # 2. symbolic exploration with the environment model installed
     if not c.get('concrete_only'):
       stubs.install()
@@ -153,6 +155,10 @@ def run_check(prop, cases, level_text, assumptions, outside, predicates=None, ar
   violations, knowns, problems = [], [], []
   rdir = os.path.join(VERIF, 'replays', prop)
   os.makedirs(rdir, exist_ok=True)
+  if only is None:
+    for f in os.listdir(rdir):      # replays of earlier runs are stale
+      if f.endswith('.json'):
+        os.unlink(os.path.join(rdir, f))
   nrep = 0
   for r in results:
     cname = r['case']
@@ -182,8 +188,12 @@ def run_check(prop, cases, level_text, assumptions, outside, predicates=None, ar
     if v and v['failures']:
       for f in v['failures']:
         for ob in f.get('names', []):
-          found.append((ob, f.get('values', {}), 'concrete validation run of the harness', f.get('choices'),
-                        f.get('error')))
+          if ob.startswith('inconclusive:'):
+            problems.append('%s: %s' % (cname, ob))
+            continue
+          found.append((ob, f.get('values', {}),
+                        _CASES[cname].get('found_by_label', 'concrete validation run of the harness'),
+                        f.get('choices'), f.get('error')))
     done_keys = set()
     for ob, values, how, choices, err in found:
       if (cname, ob) in done_keys:
@@ -248,7 +258,7 @@ def do_replay(prop, allcases, path):
 
 def write_evidence(prop, tier, seed, sel, results, level_text, assumptions, outside, violations,
                    knowns, problems, wall, stubs_used):
-  paths = forks = feas = proofs = unsat = sat = unk = 0
+  paths = forks = feas = proofs = unsat = sat = unk = nconc = 0
   solver_s = 0.0
   samples = []
   per_case = []
@@ -272,6 +282,7 @@ def write_evidence(prop, tier, seed, sel, results, level_text, assumptions, outs
     solver_s += st.get('solver_s', 0.0)
     v = r.get('validation') or {}
     nval += v.get('runs', 0)
+    nconc += v.get('checked', 0)
     obs = s.get('obligations', [])
     for ob in obs:
       distinct_goals.add((r['case'], ob['name'], ob.get('goal', '')))
@@ -287,7 +298,8 @@ def write_evidence(prop, tier, seed, sel, results, level_text, assumptions, outs
                      'unsat': sum(1 for o in obs if o['result'] == 'unsat'),
                      'sat': sum(1 for o in obs if o['result'] == 'sat'),
                      'unknown': sum(1 for o in obs if o['result'] == 'unknown'),
-                     'validation_runs': v.get('runs', 0), 'wall_s': r.get('wall_s'),
+                     'validation_runs': v.get('runs', 0), 'concrete_obligations_checked': v.get('checked', 0),
+                     'concrete_obligation_names': v.get('names', []) if not s else [], 'wall_s': r.get('wall_s'),
                      'bounds': _CASES[r['case']]['bounds'] if r['case'] in _CASES else None})
   if not samples:
     samples = [{'note': 'no obligation reached', 'problems': problems[:3]}]
@@ -296,6 +308,7 @@ def write_evidence(prop, tier, seed, sel, results, level_text, assumptions, outs
       'coverage': {
           'states': max(paths, 0), 'transitions': max(forks + proofs, 0),
           'traces_validated_against_impl': nval,
+          'concrete_obligations_checked': nconc,
           'samples': samples,
           'evaluations': proofs, 'distinct_nontrivial': len(distinct_goals),
           'rule': 'one evaluation = one solver-discharged obligation (path condition -> assertion) on one feasible path of the real function; distinct = distinct (case, obligation, goal term); trivial goals (simplified to true before the solver) are not counted',
@@ -316,5 +329,14 @@ def write_evidence(prop, tier, seed, sel, results, level_text, assumptions, outs
       'wall_s': round(wall, 2),
       'violations': len(violations),
   }
+  if paths == 0:
+    # no symx paths (CrossHair / concrete-only cases): use the generic counting keys instead
+    cov = ev['coverage']
+    del cov['states'], cov['transitions']
+    cov['evaluations'] = max(nconc, 1)
+    cov['distinct_nontrivial'] = len({(pc['case'], n) for pc in per_case for n in pc.get('concrete_obligation_names', [])})
+    cov['rule'] = ('one evaluation = one contract condition decided by CrossHair over all paths (or one sentinel identity '
+                   'check) on the real constructor; distinct = distinct (estimator, obligation)')
+    cov['samples'] = [{'case': pc['case'], 'obligations': pc.get('concrete_obligation_names', [])[:8]} for pc in per_case[:6]]
   os.makedirs(os.path.join(VERIF, 'evidence'), exist_ok=True)
   json.dump(ev, open(os.path.join(VERIF, 'evidence', prop + '.json'), 'w'), indent=1)
